@@ -501,6 +501,8 @@ func c03Limiter(p *Prog, r *Report) {
 	c03Admission(p, r, tl, fn)
 	c03Capacity(p, r, "C03.R8", tl)
 	c03TTLPositive(p, r, "C03.R10", tl)
+	// R11: while the number of sources is within the capacity no live source is forgotten: the TTL map evicts only when a NEW key arrives at capacity (shared with C14.R3)
+	r.Borrow(p, runC14, map[string]string{"C14.R3": "C03.R11"}, nil)
 }
 
 // c03TTLPositive: the lifetime handed to TTLMap.Set is provably >= 1 second for every rate set. The map
